@@ -20,7 +20,10 @@ RULE = (
     "children, nested exactly as the hierarchy; edge statements == links() as a multiset with endpoints "
     "idx:out.offset -> idx:in.offset (order links at offset -1); value edges labelled str(type); the HUGR's observation "
     "is unchanged; a second configuration yields the same parsed structure (only colours and op-name prefixes differ). "
-    "Non-trivial = HUGR with a container and an order / static / control-flow edge; distinct by canonical JSON."
+    "render-after-edits sub-check: the same over HUGRs produced by raw add/delete histories with index reuse (child "
+    "order differs from index order), where rendering must in particular leave the child order alone. "
+    "Non-trivial = HUGR with a container and an order / static / control-flow edge (programs) / some parent whose "
+    "children are not in index order (edits); distinct by canonical JSON."
 )
 ASSUMPTIONS = [
     "generated names / metadata do not contain the node-statement terminator '> shape=plain]' (statement template used by the parser)",
@@ -218,11 +221,23 @@ def check_one(h, cfg_desc):
     return f, parsed
 
 
+def build_edited(case):
+    from hugr.hugr import Hugr
+
+    h = Hugr(store.mk_pool_op(case["root"]))
+    for s in case["mut"]:
+        store.apply_valid_mutation(h, s, set())
+    return h
+
+
 def check(case) -> list[Fail]:
-    r, fails = run_program(case["prog"])
-    if r is None:
-        raise InvalidCase("program does not build")
-    h = r.hugr
+    if "prog" in case:
+        r, fails = run_program(case["prog"])
+        if r is None:
+            raise InvalidCase("program does not build")
+        h = r.hugr
+    else:
+        h = build_edited(case)
     f1, p1 = check_one(h, case["cfg"])
     f2, p2 = check_one(h, case["cfg2"])
     f = f1 + [x for x in f2 if (x.clause, x.locus) not in {(y.clause, y.locus) for y in f1}]
@@ -250,7 +265,18 @@ def nontrivial(case):
     return bool(cl & NT) and (bool(cl & CONT) or root_is_container)
 
 
+def edited_strategy(tier):
+    return st.fixed_dictionaries({"root": st.sampled_from(["module", "dfg", "custom"]), "mut": store.reuse_mutations(25 if tier == "quick" else 45), "cfg": CFG, "cfg2": CFG})
+
+
+def edited_nontrivial(case):
+    h = build_edited(case)
+    return any([c.idx for c in h.children(n)] != sorted(c.idx for c in h.children(n)) for n in h)
+
+
 SUBS = [
+    # HUGRs after raw edits with index reuse: child order differs from index order
+    Sub("render-after-edits", check, strategy=edited_strategy, nontrivial=edited_nontrivial, classes=lambda c: ["children-not-in-index-order"] if edited_nontrivial(c) else ["children-in-index-order"], n_quick=150, n_thorough=1000),
     Sub("render", check, strategy=strategy, nontrivial=nontrivial, classes=lambda c: ["qualify" if c["cfg"]["qualify"] else "plain", "custom-palette" if not isinstance(c["cfg"]["palette"], str) else c["cfg"]["palette"]] + [x for x in c["prog"].get("classes", []) if x in NT | CONT | {"metadata"}],
         n_quick=250, n_thorough=1500, sample_ok=lambda c: len(c["prog"]["events"]) <= 8),
 ]
